@@ -81,7 +81,7 @@ class HarnessError(Exception):
 
 
 class Outcome:
-    __slots__ = ("fail", "nontrivial", "classes", "excluded", "key", "sample", "evals")
+    __slots__ = ("fail", "nontrivial", "classes", "excluded", "key", "sample", "evals", "metrics")
 
     def __init__(self):
         self.fail: list[tuple[str, str]] = []
@@ -91,6 +91,16 @@ class Outcome:
         self.key = None  # canonical key for distinctness (default: the case itself)
         self.sample = None  # compact description (default: the case)
         self.evals = 1  # oracle evaluations performed by this case
+        self.metrics: dict[str, float] = {}  # e.g. error/tolerance ratios; the runner keeps the maximum
+
+    def metric(self, name: str, value: float) -> None:
+        if value == value:  # not NaN
+            self.metrics[name] = max(self.metrics.get(name, float("-inf")), float(value))
+
+    def within(self, err: float, tol: float, label: str, msg="") -> bool:
+        """check(err <= tol) that also records the ratio err/tol as a metric (calibration head-room)."""
+        self.metric("ratio:" + label, err / tol if tol > 0 else (0.0 if err == 0 else float("inf")))
+        return self.check(err <= tol, label, msg if msg else f"error {err:.3e} > tolerance {tol:.3e}")
 
     def check(self, cond, label: str, msg="") -> bool:
         if not cond:
@@ -179,6 +189,7 @@ class Stats:
         self.failures: dict[str, list[dict]] = {}
         self.samples: list = []
         self.trivial_samples: list = []
+        self.metrics: dict[str, float] = {}
 
     def record(self, case, out: Outcome, part: str, shard: int):
         self.cases += 1
@@ -190,6 +201,9 @@ class Stats:
         self.all_keys.add(k)
         for c in out.classes:
             self.classes[c] += 1
+        for k_, v_ in out.metrics.items():
+            if v_ > self.metrics.get(k_, float("-inf")):
+                self.metrics[k_] = v_
         if out.nontrivial:
             new = k not in self.nontrivial_keys
             self.nontrivial_keys.add(k)
@@ -216,6 +230,7 @@ class Stats:
             "failures": self.failures,
             "samples": self.samples,
             "trivial_samples": self.trivial_samples,
+            "metrics": self.metrics,
         }
 
 
@@ -445,6 +460,7 @@ def run_check(prop_id: str, tier: str, seed: int, only_part: str | None = None, 
         "failures": {},
         "samples": [],
         "trivial_samples": [],
+        "metrics": {},
     }
     per_part: dict[str, dict] = {}
     errors = []
@@ -468,6 +484,9 @@ def run_check(prop_id: str, tier: str, seed: int, only_part: str | None = None, 
                 merged["failures"].setdefault(label, []).extend(lst)
             merged["samples"].extend(res["samples"])
             merged["trivial_samples"].extend(res["trivial_samples"])
+            for k_, v_ in res["metrics"].items():
+                if v_ > merged["metrics"].get(k_, float("-inf")):
+                    merged["metrics"][k_] = v_
 
         if errors:
             job, err = errors[0]
@@ -539,6 +558,7 @@ def run_check(prop_id: str, tier: str, seed: int, only_part: str | None = None, 
             "samples": samples,
             "classes": classes,
             "excluded": dict(merged["excluded"]),
+            "max_metrics": {k: (v if math.isfinite(v) else repr(v)) for k, v in sorted(merged["metrics"].items())},
             "excluded_known_findings": n_known_excluded,
             "regression_replays": n_regress,
             "parts": {
@@ -565,7 +585,8 @@ def run_check(prop_id: str, tier: str, seed: int, only_part: str | None = None, 
         f"violations={len(violations)} wall={wall:.1f}s"
     )
     if os.environ.get("VERIF_VERBOSE"):
-        print(json.dumps({"classes": classes, "excluded": dict(merged["excluded"])}, indent=1))
+        print(json.dumps({"classes": classes, "excluded": dict(merged["excluded"]),
+                          "max_metrics": {k: repr(v) for k, v in sorted(merged["metrics"].items())}}, indent=1))
     if violations:
         for label, rel in violations:
             print(f"VIOLATION property={prop_id} replay={rel}")
